@@ -166,7 +166,7 @@ def bbc_jobs():
                      tier="quick" if lane == 1 else "thorough",
                      loops={fn: {"count": 1, "loops": [
                          {"id": 0, "assigns": "i, __CPROVER_object_whole(acc1), __CPROVER_object_whole(acc2)" + GH, "invariants": inv, "decreases": "4 * ell - i"}]}},
-                     cbmc_flags=["--no-signed-overflow-check", "--unsigned-overflow-check"], functions=[fn], timeout=1200,
+                     cbmc_flags=["--no-signed-overflow-check", "--unsigned-overflow-check"], functions=[fn], timeout=3000,
                      # x*y itself is exact iff both lanes are below 2^32, which is layout a's domain: a universally quantified
                      # precondition that has no ghost-index form; the accumulator bounds hold for ANY t, so this one check is waived
                      waive=[r"arithmetic overflow on unsigned \* in x_ptr\[", r"arithmetic overflow on unsigned \* in x \* y"],
